@@ -1,8 +1,10 @@
+mod depth;
 mod detect;
 mod enc_replay;
 mod errtext;
 mod input_replay;
 mod mem;
+mod msgpack_replay;
 mod obs;
 mod scen;
 mod transcode_replay;
@@ -26,6 +28,9 @@ fn main() {
         "record-errtext" => errtext::record(&arg(2), num(3, 40)),
         "enc-replay" => enc_replay::run(&arg(2), num(3, 2)),
         "enc-sweep" => enc_replay::sweep(num(2, 97) as u32),
+        "msgpack-replay" => msgpack_replay::run(&arg(2)),
+        "depth-worker" => depth::worker(),
+        "gen-deep" => depth::write_file(&arg(2), &arg(3), &arg(4), num(5, 10) as usize),
         "record-detect" => detect::record(&arg(2), num(3, 50)),
         "record-mem" => {
             let sizes: Vec<usize> = arg(4).split(',').filter_map(|s| s.parse().ok()).collect();
